@@ -211,7 +211,7 @@ func c11(r *h.Result, rng *h.Rng, tier string, replay string) error {
 	if tier != "quick" {
 		n = 10000
 	}
-	r.Rule = "text: grammar-directed TraceQL scripts (chains of ≤ 4 selectors with && / ||, nested and/or with parentheses, repeated terms, prefixes . span. resource. name duration, string / number / duration values, all operators, aggregators with units) × random planner contexts; non-trivial = planned without error and has more than one selector, an aggregator or a boolean operator; distinct by (query, context). tags: single selectors for PlanTagsV2/PlanValuesV2. syntax: every planned statement counts. sem: (query, context, trace database aimed at the query) with a non-empty result on either side"
+	r.Rule = "text: grammar-directed TraceQL scripts (chains of ≤ 6 selectors with && / ||, nested and/or with parentheses, repeated terms, prefixes . span. resource. name duration, string / number / duration values, all operators, aggregators with units) × random planner contexts; non-trivial = planned without error and has more than one selector, an aggregator or a boolean operator; distinct by (query, context). tags: single selectors for PlanTagsV2/PlanValuesV2. syntax: every planned statement counts. sem: (query, context, trace database aimed at the query) with a non-empty result on either side"
 	if replay != "" {
 		b, err := os.ReadFile(replay)
 		if err != nil {
@@ -247,7 +247,7 @@ func c11(r *h.Result, rng *h.Rng, tier string, replay string) error {
 			return c11TagSem(rng.Fork(), r, 1, &rw.Replay.Case)
 		}
 	}
-	if err := c11Text(rng.Fork(), r, n, 4, tier != "quick"); err != nil {
+	if err := c11Text(rng.Fork(), r, n, 6, tier != "quick"); err != nil {
 		return err
 	}
 	if err := c11Tags(rng.Fork(), r, n/3); err != nil {
@@ -276,6 +276,13 @@ func c11(r *h.Result, rng *h.Rng, tier string, replay string) error {
 		np = 600
 	}
 	if err := c11Portions(rng.Fork(), r, np, nil); err != nil {
+		return err
+	}
+	// extension c11y
+	if err := c11Units(rng.Fork(), r, n); err != nil {
+		return err
+	}
+	if err := c11Heap(rng.Fork(), r, n/2); err != nil {
 		return err
 	}
 	return nil
